@@ -466,7 +466,7 @@ class Gen(object):
         if getattr(self, 'more', False):
             # real literals and real-typed variables, creation without a variable, copies of instance handles and of
             # instance sets, assignments to parameters
-            kinds += ['real', 'real', 'create_nv', 'handle_copy', 'handle_copy']
+            kinds += ['real', 'real', 'create_nv', 'handle_copy', 'handle_copy', 'set_ops', 'set_ops']
             if self.home in ('func', 'bridge', 'op'):
                 kinds += ['param_write']
         if getattr(self, 'arrays', False):
@@ -506,6 +506,21 @@ class Gen(object):
                 out += [Assign(V(x), R() if r.random() < 0.6 else V(r.choice(self.vars_of('real')))),
                         assign_new('int', 'rk', V(x) if r.random() < 0.5 else Bin('*', V(x), I(2)))]
             return out
+        if k == 'set_ops':
+            # union, intersection, difference and symmetric difference of instance sets of one class (typed like their left
+            # operand); | binds like + and -, & and ^ like * and /
+            sets = [(n, t[4:]) for sc in self.scopes for n, t in sc.items() if t.startswith('set:')]
+            if not sets:
+                return None
+            n1, c = r.choice(sets)
+            same = [n for n, c2 in sets if c2 == c]
+            e = Bin(r.choice(['|', '&', '-', '^']), V(n1), V(r.choice(same)))
+            if r.random() < 0.5:
+                e2 = V(r.choice(same))
+                op = r.choice(['|', '&', '-', '^'])
+                e = self.maybe_paren(Bin(op, e, e2) if r.random() < 0.5 else Bin(op, e2, e))
+            name = self.fresh('set:' + c, 'su')
+            return [Assign(V(name), e), assign_new('int', 'sn', Un('cardinality', V(name)))]
         if k == 'create_nv':
             return {'t': 'create_nv', 'k': r.choice(['A', 'B', 'P'])}
         if k == 'param_write':
